@@ -31,8 +31,8 @@ CLAIMS = {
         'scheduling segment is validated by TLC against the specification (subset construction over the unlogged locals) '
         'with the monitors evaluated on the Lamport times carried by the queued broadcasts.',
         'Trusts TLC, the yield instrumenter (a yield before every statement of UserEvent, Query, registerQueryResponse, '
-        'handleUserEvent, handleQuery; LamportClock operations are atomic steps, their internals are C19), the cooperative '
-        'scheduler. Concurrent callers sharing a time was a genuine defect (fixed in /repo 82cb47c; mutants/m_c06_unfix.diff '
+        'handleUserEvent, handleQuery and of every function of lamport.go), the cooperative '
+        'scheduler (yields also inside lamport.go: Witness load / compare / CAS, Increment, Time; preemptions are enumerated around the clock accesses, <=2 for small programs). Concurrent callers sharing a time was a genuine defect (fixed in /repo 82cb47c; mutants/m_c06_unfix.diff '
         'restores it and is caught); the repetition of times after the wrap at 2^64-1 is a recorded consequence of '
         'C19-wrap-at-max (tag witnessed_max).',
         'TLA+ spec + TLC exhaustive check; systematic schedule enumeration of the instrumented real code; TLC trace '
@@ -454,7 +454,7 @@ def conc_programs(ctx):
     ]
     vals = [0, 1, 2, 3, 5, MAX - 1, MAX]
     extra = []
-    n = 40 if ctx.thorough() else 4
+    n = 28 if ctx.thorough() else 4
     for _ in range(n):
         nt = rng.choice([2, 2, 3]) if ctx.thorough() else 2
         th = []
@@ -519,7 +519,7 @@ def run_c06(ctx, replay=None):
             raise vlib.Inconclusive("the recorded finding (times not later after the wrap at MAX) is not reachable in the model")
         mc = (tot_d, tot_g, "; ".join(c[5] for c in cfgs))
         progs = conc_programs(ctx)
-    maxpre, budget, nrand = (2, 300, 40) if thorough else (1, 120, 12)
+    maxpre, budget, nrand = (2, 250, 30) if thorough else (1, 120, 12)
     tp, summary = run_conc(ctx, binary, progs, "a", maxpre, budget, nrand, choices=fixed)
     ctx.log("driver:", summary)
     rep = vlib.validate(ctx, "Trace_SerfEventsConc", CONC_TRACE_CFG, tp, timeout=3000)
